@@ -82,13 +82,15 @@ fn check_parse(sc: &mut Sc, name: &[u8]) {
         (Some((pat, mods, dh, ci, ha)), Out::Ok(_)) => {
             sc.count("parse.valid");
             let exp = format!(
-                "ok pattern={} mods={} dh={} cipher={} hash={} name={}",
+                "ok pattern={} mods={} dh={} cipher={} hash={} name={} psk={} fb={}",
                 pat,
                 if mods.is_empty() { "-".to_string() } else { mods.join(",") },
                 dh,
                 ci,
                 ha,
-                hex(name)
+                hex(name),
+                u8::from(mods.iter().any(|m| m.starts_with("psk"))),
+                u8::from(mods.iter().any(|m| m == "fallback"))
             );
             if line != exp {
                 sc.viol("C13", format!("parse of {:?}: got `{line}`, grammar says `{exp}`", String::from_utf8_lossy(name)));
@@ -260,6 +262,38 @@ pub fn gen_parse(run: &mut Run, seed: u64, thorough: bool) {
         check_parse(&mut sc, s.as_bytes());
     }
     run.add("parse", "special and random".into(), sc);
+    // the individual FromStr impls called directly (BaseChoice, DHChoice, CipherChoice, HashChoice, HandshakePattern,
+    // HandshakeModifier, HandshakeModifierList, HandshakeChoice): every kind on every candidate string
+    let mut sc = Sc::new();
+    sc.ex.comment("parse_part: the FromStr impls of the parameter types, directly");
+    let mut cands: Vec<String> = [
+        "Noise", "noise", "Noise ", "", "NoiseXX", "25519", "448", "P256", "p256", "X25519", "Curve25519", "ChaChaPoly", "XChaChaPoly", "AESGCM", "AES256GCM",
+        "chachapoly", "SHA256", "SHA512", "BLAKE2s", "BLAKE2b", "Blake2s", "SHA-256", "sha256", "SHA+256", "SHA0256", "XXfallback", "XXpsk0", "XXpsk3",
+        "XXpsk4", "NNpsk0+psk2", "NNpsk2+psk0", "X1X1psk1", "XK1psk3", "IKpsk1+fallback", "Npsk0", "Npsk1", "psk0", "psk1", "psk9", "psk255", "psk256",
+        "psk01", "psk001", "psk0255", "psk", "pskx", "psk-1", "psk+1", "psk 1", "pskpsk0", "PSK0", "fallback", "Fallback", "fallbackx", "hfs", "psk0+psk1", "psk0+psk0",
+        "psk1+psk01", "psk1+fallback", "fallback+psk1", "fallback+fallback", "+", "psk0+", "+psk0", "psk0++psk1", "é", "XXé", "pskü", "XX+psk0", "XX_psk0", "I1K1", "I1K1psk2+psk0",
+    ]
+    .iter()
+    .map(|x| (*x).to_string())
+    .collect();
+    for p in &pats {
+        cands.push((*p).to_string());
+        if p.len() > 1 {
+            cands.push(p[..p.len() - 1].to_string());
+        }
+        cands.push(format!("{p}1"));
+        cands.push(p.to_lowercase());
+    }
+    for kind in ["base", "dh", "cipher", "hash", "pattern", "modifier", "modlist", "handshake"] {
+        for c in &cands {
+            let o = sc.ex.parse_part(kind, c.as_bytes());
+            if o == "panic" {
+                sc.viol("C10", format!("parsing {c:?} as {kind} panicked"));
+            }
+            sc.count("parse.part");
+        }
+    }
+    run.add("parse", "FromStr impls called directly".into(), sc);
 }
 
 // ------------------------------------------------------------------ tokens (modifier application)
@@ -374,7 +408,7 @@ pub fn gen_build(run: &mut Run, seed: u64, thorough: bool) {
                         for mods in &modsets {
                             let name = format!("Noise_{p}{}_{dh}_ChaChaPoly_SHA256", mods_suffix(mods));
                             let psks: Vec<(u8, Vec<u8>)> = if r.chance(1, 2) { mods.iter().filter(|n| **n < 10).map(|n| (*n, r.bytes(32))).collect() } else { vec![] };
-                            let spec = BuildSpec { alias: None,
+                            let spec = BuildSpec { alias: None, mods: None,
                                 name: name.clone(),
                                 initiator,
                                 resolver: resolver.into(),
@@ -421,7 +455,7 @@ pub fn gen_build(run: &mut Run, seed: u64, thorough: bool) {
             for which in 0..3 {
                 for len in [0usize, 1, 31, 32, 33, pub_len - 1, pub_len, pub_len + 1, 56, 57, 64, 65, 66, 100, 200] {
                     let name = format!("Noise_{kpat}_{dh}_AESGCM_BLAKE2b");
-                    let mut spec = BuildSpec { alias: None,
+                    let mut spec = BuildSpec { alias: None, mods: None,
                         name: name.clone(),
                         initiator: r.chance(1, 2),
                         resolver: "toy".into(),
@@ -450,7 +484,7 @@ pub fn gen_build(run: &mut Run, seed: u64, thorough: bool) {
         // known finding (C10): P-256 private keys outside [1, n-1] panic in Dh::set (derive_pubkey().unwrap())
         if *p == "NN" {
             for (what, key) in [("all-zero", vec![0u8; 32]), ("all-0xff", vec![0xffu8; 32])] {
-                let spec = BuildSpec { alias: None,
+                let spec = BuildSpec { alias: None, mods: None,
                     name: "Noise_NN_P256_ChaChaPoly_SHA256".into(),
                     initiator: true,
                     resolver: "default".into(),
@@ -473,7 +507,7 @@ pub fn gen_build(run: &mut Run, seed: u64, thorough: bool) {
         // resolver availability
         for res in ["toy-norng", "toy-nodh", "toy-nocipher", "toy-nohash", "none", "fb(none,toy)", "fb(toy-nodh,toy-nohash)", "fb(toy-nodh,toy-nodh)"] {
             let name = format!("Noise_{p}_25519_AESGCM_SHA512");
-            let spec = BuildSpec { alias: None,
+            let spec = BuildSpec { alias: None, mods: None,
                 name: name.clone(),
                 initiator: r.chance(1, 2),
                 resolver: res.into(),
@@ -501,6 +535,55 @@ pub fn gen_build(run: &mut Run, seed: u64, thorough: bool) {
 }
 
 // ------------------------------------------------------------------ resolve
+
+/// Sessions whose modifier list was put together by hand (`NoiseParams.handshake.modifiers.list` is a public field):
+/// lists the parser never produces. Built for both roles and run with generous buffers; compared with the model only.
+pub fn gen_handmods(run: &mut Run, seed: u64) {
+    let mut r = Rng64(seed ^ 0x686d6f6473);
+    let lists = ["psk0,psk0", "psk1,psk0", "psk0,psk1,psk0", "psk2,psk2", "fallback", "psk0,fallback", "psk9", "psk255", "psk1,psk1,psk1", "-"];
+    for (pi, p) in ["NN", "XX", "IK", "N", "X1X1"].iter().enumerate() {
+        for (li, l) in lists.iter().enumerate() {
+            let mut sc = Sc::new();
+            sc.ex.comment(&format!("hand-built modifier list {l} on {p}"));
+            let name = format!("Noise_{p}psk0_25519_ChaChaPoly_SHA256");
+            let s_i = r.bytes(32);
+            let s_r = r.bytes(32);
+            let (Some(pub_i), Some(pub_r)) = (pub_of("toy", "25519", &s_i), pub_of("toy", "25519", &s_r)) else { continue };
+            let psks: Vec<(u8, Vec<u8>)> = (0..4u8).map(|n| (n, vec![0x31 + n; 32])).collect();
+            let mk = |initiator: bool| BuildSpec { alias: None, mods: Some((*l).to_string()),
+                name: name.clone(),
+                initiator,
+                resolver: "toy".into(),
+                s: Some(if initiator { s_i.clone() } else { s_r.clone() }),
+                e: None,
+                rs: Some(if initiator { pub_r.clone() } else { pub_i.clone() }),
+                psks: psks.clone(),
+                prologue: None,
+                rng: Rng64(seed ^ (pi * 31 + li) as u64 ^ u64::from(initiator)).bytes(128),
+            };
+            let (a, b) = (sc.ex.build(1, &mk(true)), sc.ex.build(2, &mk(false)));
+            sc.check_panic(&a, "build with a hand-built modifier list");
+            sc.check_panic(&b, "build with a hand-built modifier list");
+            sc.count("build.handmods");
+            if a.is_ok() && b.is_ok() {
+                for k in 0..5 {
+                    let (w, rd) = if k % 2 == 0 { (1, 2) } else { (2, 1) };
+                    let o = sc.ex.hs_write(w, b"hm", 400);
+                    sc.check_panic(&o, "hs_write (hand-built modifier list)");
+                    let Some(m) = o.bytes().map(<[u8]>::to_vec) else { break };
+                    let o = sc.ex.hs_read(rd, &m, 400);
+                    sc.check_panic(&o, "hs_read (hand-built modifier list)");
+                    if !o.is_ok() {
+                        break;
+                    }
+                }
+                let _ = sc.ex.query(1);
+                let _ = sc.ex.query(2);
+            }
+            run.add("build", format!("hand-built modifiers {l} {p}"), sc);
+        }
+    }
+}
 
 pub fn gen_resolve(run: &mut Run) {
     let mut sc = Sc::new();
@@ -599,7 +682,7 @@ fn quick_pair(sc: &mut Sc, name: &str, res_i: &str, res_r: &str, seed: u64, stat
     let s_r = r.bytes(32);
     let (Some(pub_i), Some(pub_r)) = (pub_of(res_i, dh, &s_i), pub_of(res_r, dh, &s_r)) else { return false };
     let psk: Vec<(u8, Vec<u8>)> = psks.iter().map(|n| (*n, vec![0x77 ^ *n; 32])).collect();
-    let mk = |initiator: bool| BuildSpec { alias: None,
+    let mk = |initiator: bool| BuildSpec { alias: None, mods: None,
         name: name.to_string(),
         initiator,
         resolver: if initiator { res_i.into() } else { res_r.into() },
